@@ -33,7 +33,7 @@ CONSTANTS
 DsName == { DsSeq[k] : k \in 1..Len(DsSeq) }
 DsIdx(n) == CHOOSE k \in 1..Len(DsSeq) : DsSeq[k] = n
 ActNames == {"store", "txn", "tick", "create", "delete", "rename", "gc",
-             "restart", "compact", "dup", "read", "backup", "foreign"}
+             "restart", "compact", "dup", "read", "backup", "foreign", "lsm"}
 
 VARIABLES
   clock,       \* logical time; every write action happens at clock+1
@@ -52,8 +52,10 @@ VARIABLES
 
 vars == <<clock, dsInc, nextInc, deletedInc, purgedInc, feed, nextPos,
           everStored, metaOf, rd, bk, pre, hist>>
+\* the history is hidden from the view except for one bit: whether the storage engine compacted its LSM tree.
+\* That environment step changes no abstract state, yet what follows it must still be explored.
 view == <<clock, dsInc, nextInc, deletedInc, purgedInc, feed, nextPos,
-          everStored, metaOf, rd, bk>>
+          everStored, metaOf, rd, bk, \E i \in 1..Len(hist) : hist[i].a = "lsm">>
 
 MaxInc == 6
 Inc == 1..MaxInc
@@ -280,6 +282,18 @@ Restart ==
   /\ UNCHANGED <<clock, dsInc, nextInc, deletedInc, purgedInc, feed, nextPos,
                  everStored, metaOf, rd, bk>>
 
+\* Environment step: the storage engine compacts its LSM tree (badger does so in the background at moments
+\* of its own choosing): versions and delete markers no reader can see are physically dropped.  Nothing a
+\* hub API answers may change, now or later (e.g. what the next backup run captures).  At most once per
+\* behaviour (the harness needs about a second to provoke it).
+LsmCompact ==
+  /\ "lsm" \in Acts
+  /\ hist # <<>>
+  /\ \A i \in 1..Len(hist) : hist[i].a # "lsm"
+  /\ Log([a |-> "lsm"])
+  /\ UNCHANGED <<clock, dsInc, nextInc, deletedInc, purgedInc, feed, nextPos,
+                 everStored, metaOf, rd, bk>>
+
 \* a "legacy duplicate": a version identical to its immediate predecessor, as
 \* older hub versions wrote them (C12's quantifier).  Realised in the harness
 \* as store(x) ; store(c) ; physically remove version x  -- two commit instants.
@@ -328,7 +342,7 @@ NoBk == [taken |-> FALSE]
 \* the end of the behaviour and compares the restored hub with them.
 Backup ==
   /\ "backup" \in Acts
-  /\ hist # <<>>
+  /\ (hist # <<>> \/ Precreated)
   /\ IF bk.taken THEN bk.runs < 4 ELSE TRUE      \* idle runs (backup right after backup) included
   /\ bk' = [taken |-> TRUE, runs |-> (IF bk.taken THEN bk.runs + 1 ELSE 1), foreign |-> FALSE,
             clock |-> clock, dsInc |-> dsInc, deletedInc |-> deletedInc, feed |-> feed]
@@ -380,16 +394,22 @@ Next ==
      \/ \E n \in DsName : CreateDs(n) \/ DeleteDs(n) \/ Compact(n)
      \/ \E n, m \in DsName : RenameDs(n, m)
      \/ \E n \in DsName, e \in Ent : InjectDup(n, e)
-     \/ GC \/ Restart \/ Backup \/ ForeignBackup
+     \/ GC \/ Restart \/ Backup \/ ForeignBackup \/ LsmCompact
      \/ \E r \in Readers : ReadPage(r)
 
 Spec == Init /\ [][Next]_vars
 SpecCreated == InitCreated /\ [][Next]_vars
 
 \* Sampled exploration for deep histories: every state keeps Fan randomly chosen
-\* action instances (TLC's RandomElement; reproducible with -seed).  The filter
+\* action instances (see RE below; reproducible for a given Seed).  The filter
 \* sits inside Next, so only kept successors are generated and emitted.
-RE(S) == {RandomElement(IF Steps >= 0 THEN S ELSE {})}   \* state-level on purpose: no constant folding
+\* TLC's RandomElement ignores -seed in model-checking mode (measured), so the choice is made by a small
+\* Lehmer generator kept in TLC register 7: with ONE worker the breadth-first order, hence the whole sample, is a
+\* function of Seed (overridden per run from VERIF_SEED).
+Seed == 1
+ASSUME TLCSet(7, (Seed % 65000) + 1)
+Rnd == LET n == (TLCGet(7) * 17364) % 65521 IN IF TLCSet(7, n) THEN n ELSE 0
+RE(S) == LET q == SetToSeq(IF Steps >= 0 THEN S ELSE {}) IN { q[(Rnd % Len(q)) + 1] }   \* state-level on purpose: no constant folding
 DeadNames == DsName \ LiveNames
 KindsNow ==
   { k \in Acts :
@@ -402,7 +422,8 @@ KindsNow ==
       \/ k = "read" /\ Readers # {}
       \/ k = "gc" /\ purgedInc # deletedInc
       \/ k = "restart" /\ hist # <<>>
-      \/ k = "backup" /\ hist # <<>>
+      \/ k = "lsm" /\ hist # <<>> /\ \A i \in 1..Len(hist) : hist[i].a # "lsm"
+      \/ k = "backup" /\ (hist # <<>> \/ Precreated)
       \/ k = "foreign" /\ bk.taken }
 NextSample ==
   /\ Steps < MaxSteps
@@ -427,6 +448,7 @@ NextSample ==
         \/ kind = "read" /\ \E r \in RE(Readers) : ReadPage(r)
         \/ kind = "gc" /\ GC
         \/ kind = "restart" /\ Restart
+        \/ kind = "lsm" /\ LsmCompact
         \/ kind = "backup" /\ Backup
         \/ kind = "foreign" /\ ForeignBackup
 SpecSample == Init /\ [][NextSample]_vars
@@ -502,7 +524,7 @@ RecreateIsEmpty ==
 RecreateEmpty == [][RecreateIsEmpty]_vars
 \* C07 / C12 / C14: maintenance actions change no answer of any other read
 MaintInvisibleStep ==
-  (hist' # hist /\ hist'[Len(hist')].a \in {"gc", "restart", "compact"}) =>
+  (hist' # hist /\ hist'[Len(hist')].a \in {"gc", "restart", "compact", "lsm"}) =>
     /\ \A n \in DsName : Exists(n) =>
          /\ Entities(n)' = Entities(n)
          \* compaction keeps the first of a run of identical versions, so the newest version of an
